@@ -35,13 +35,16 @@ def config_pairs():
         dict(ctor="gen_prim", ctor_kwargs={}),
         dict(ctor="gen_dfs_percolation", ctor_kwargs=dict(p=0.2)),
         dict(ctor="gen_dfs", ctor_kwargs={}, endpoint_kwargs=dict(deadend_start=True, endpoints_not_equal=True)),
+        # proportional (float) arguments: anything that normalises them must do so on its own copy of the kwargs
+        dict(ctor="gen_dfs", ctor_kwargs=dict(accessible_cells=0.5)),
+        dict(ctor="gen_dfs_percolation", ctor_kwargs=dict(accessible_cells=1.0, max_tree_depth=0.5, p=0.1)),
     ]
     B = [
         dict(ctor="gen_wilson", ctor_kwargs={}),
         dict(ctor="gen_percolation", ctor_kwargs=dict(p=0.95)),
         dict(ctor="gen_wilson", ctor_kwargs={}, endpoint_kwargs=dict(deadend_end=True)),
     ]
-    seeds = [(1, 2), (7, 13), (123, 5)]
+    seeds = [(1, 2), (7, 13), (123, 5), (0, 3), (11, 0)]  # 0 is a seed like any other (falsy, but not "no seed")
     A.insert(1, dict(ctor="gen_dfs", ctor_kwargs=dict(randomized_stack=True)))
     pairs = []
     k = 0
@@ -49,7 +52,7 @@ def config_pairs():
     combos = [(i, i % len(B)) for i in range(len(A))] + [(i, j) for i in range(len(A)) for j in range(len(B)) if j != i % len(B)]
     for i, j in combos:
         a, b = A[i], B[j]
-        sa, sb = seeds[k % 3]
+        sa, sb = seeds[k % len(seeds)]
         k += 1
         pa = dict(dict(name="a", grid_n=4 + (i % 2), n_mazes=5, seed=sa, endpoint_kwargs={}, filters=[]), **copy.deepcopy(a))
         pb = dict(dict(name="b", grid_n=4 + (j % 2), n_mazes=8, seed=sb, endpoint_kwargs={}, filters=copy.deepcopy(FILTERS_B)), **copy.deepcopy(b))
@@ -120,8 +123,11 @@ def canaries():
     t["events"][3]["dig"] = ["y1", "y2"]
     c.append((t, "from_config_differs_from_generate_plus_filters"))
     t = synth_trace()
-    t["events"][2]["after"] = "h2"
+    t["events"][3]["after"] = "g2"
     c.append((t, "argument_config_modified"))
+    t = synth_trace()
+    t["events"][2]["after"] = "h2"
+    c.append((t, "M:generate_modified_its_argument"))
     t = synth_trace()
     t["events"][3]["res"] = "raise:ValueError"
     c.append((t, "call_raised"))
@@ -160,7 +166,7 @@ def main(chk: lib.Check) -> int:
     chk.notes["histories_emitted"] = dict(two_step_exhaustive=len(h2), five_step_simulated=len(h5))
     pairs = config_pairs()
     if not thorough:
-        pairs = pairs[:8]
+        pairs = pairs[:10]  # = len(A) in config_pairs(): every generator / kwargs variant once
     probes = [dict(a="Generate", r="-", s=0, c="a"), dict(a="FromConfig", r="-", s=0, c="b"), dict(a="Generate", r="-", s=0, c="b"), dict(a="FromConfig", r="-", s=0, c="a")]
     jobs = []
     for k, h in enumerate(h2 + h5):
